@@ -86,7 +86,12 @@ func (c *CDCServer) getCDCHandler() http.Handler {
 			metrics.TaskRequestCountVec.WithLabelValues(metrics.UnknownTypeLabel, metrics.UnmarshalErrorStatusLabel).Inc()
 			return
 		}
-		metrics.TaskRequestCountVec.WithLabelValues(cdcRequest.RequestType, metrics.TotalStatusLabel).Inc()
+		requestTypeLabel := cdcRequest.RequestType
+		if _, ok := requestHandlers[requestTypeLabel]; !ok {
+			// the request type is given by the user, an invalid label value, like a non-utf8 string, makes the metric panic
+			requestTypeLabel = metrics.UnknownTypeLabel
+		}
+		metrics.TaskRequestCountVec.WithLabelValues(requestTypeLabel, metrics.TotalStatusLabel).Inc()
 
 		response := c.handleRequest(cdcRequest, writer)
 
